@@ -62,7 +62,7 @@ def chirality_signature(moldata):
     return sorted([nodes[n]['chiral'], nodes[n].get('element'), sorted(nb[n])] for n in nodes if 'chiral' in nodes[n])
 
 
-QUICK = ['difluoroethene', 'difluorobutene', 'butene', 'chiral_centre', 'branched_fluorobutene', 'chlorobutene']
+QUICK = ['difluoroethene', 'difluorobutene', 'butene', 'chiral_centre', 'branched_fluorobutene', 'chlorobutene', 'chiral_and_ez']
 
 
 def ez_classes(moldata):
